@@ -1211,6 +1211,22 @@ MUTANTS = [
          old="                execute_query_for == ExecuteQueryFor::RecomputeQuery,\n                continuing_tx,",
          new="                execute_query_for != ExecuteQueryFor::RecomputeQuery,\n                continuing_tx,",
          expect="C01.k/execute_query/dirty-edges-cleaned-exactly-on-recompute"),
+    dict(id="C01.q-drain-pops-before-the-limit-check", prop="C01", file=CG + "dirty_worker/task.rs",
+         old="""                    if count == 0 {
+                        None
+                    } else {
+                        count -= 1;
+                        queue.pop()
+                    }""",
+         new="""                    let edge = queue.pop()?;
+
+                    if count == 0 {
+                        return None;
+                    }
+
+                    count -= 1;
+                    Some(edge)""",
+         expect="C01.q/stripped-buffer/every-popped-edge-is-handed-out"),
     # ------------------------------------------------------------------ C09.f (D5)
     dict(id="C09.f-D5-fold-heap-in-arbitrary-order", prop="C09", file=ST + "key_of_set_map/cache.rs",
          old="""        let mut ordered = log.iter().collect::<Vec<_>>();
